@@ -82,3 +82,14 @@ CHECKS["C09"] = dict(
     assumptions=E1_ASSUME,
     units=[dict(pkg="silence", test="TestVerifC09", shards_quick=16, shards_thorough=16, budget_quick=90, budget_thorough=1200)],
 )
+
+CHECKS["C10"] = dict(
+    level="model_checking",
+    engine="seqx+schedx",
+    rule="part step-rule: explicit-state BFS over canonical states of one real nflog.Log (store dump + reference content relative to now); events: merge of 8 remote entries (2 keys x {e1, newer, from the future, already expired}), 2 batches, local Log with expiry 0 / 2s / 10s, GC, restart from snapshot, advances 1/3/5 (retention 4). part permutations: all sub-multisets x permutations x batchings x duplication. parts sched-*: Log || Merge || GC || 2 Queries, all schedules <= 2 (quick) / 3 (thorough) preemptions. states = distinct canonical states/outcomes; transitions = events or synchronisation steps",
+    technique="explicit-state model checking of the implementation against a last-writer-wins reference model; exhaustive delivery-order enumeration; preemption-bounded schedule exploration",
+    level_text="After every event Query for each key equals the reference (newest timestamp among logged/accepted entries, refused if expired at receipt, present until expiry, gone after a GC past expiry, receiver data int/float/string unchanged); any order/duplication/batching converges; under concurrency the final entry is the newest and successive reads never go backwards.",
+    level_note="Timestamp ties are not generated (the statement does not order them). A message never carries two entries of one key (neither a broadcast nor a full state does).",
+    assumptions=E1_ASSUME + E2_ASSUME,
+    units=[dict(pkg="nflog", test="TestVerifC10", gomaxprocs=1, shards_quick=16, shards_thorough=16, budget_quick=90, budget_thorough=1200)],
+)
